@@ -126,6 +126,8 @@ pub struct G3Opts {
     pub deletions: bool,
     pub ends: Vec<String>,
     pub second_order: bool, // deletion ∘ window
+    /// replace each blank run (one at a time) by each of these (multi-token whitespace)
+    pub ws_variants: Vec<String>,
 }
 
 /// G3: bounded deviations of the seed texts.
@@ -161,6 +163,15 @@ pub fn g3(seeds: &[String], o: &G3Opts) -> Vec<String> {
                             }
                         }
                     }
+                }
+            }
+        }
+        for v in &o.ws_variants {
+            for d in 0..n {
+                if toks[d].chars().all(|c| c == ' ') && !toks[d].is_empty() {
+                    let mut t = toks.clone();
+                    t[d] = v.clone();
+                    base.push(t.concat());
                 }
             }
         }
